@@ -1,6 +1,6 @@
 (* Compact serialisation of VyCore results as a list Z for the harness (no proofs). *)
 From Coq Require Import ZArith List Bool.
-From Verif Require Import C01.VyCore.
+From Verif Require Import C01.VyCore C01.VyWf.
 Import ListNotations.
 Open Scope Z_scope.
 
@@ -40,4 +40,4 @@ Definition enc_result (full : bool) (r : ext_result) : list Z :=
 
 Definition show_run (full : bool) (P : prog) (calls : list xcall) : list Z :=
   let '(rs, fin) := run_calls (fuel_bound P) P calls (init_sto P) in
-  Z.of_nat (length rs) :: flat_map (enc_result full) rs ++ enc_values fin.
+  (if wf_prog P then 1 else 0) :: Z.of_nat (length rs) :: flat_map (enc_result full) rs ++ enc_values fin.
